@@ -17,8 +17,10 @@ SCOPE = ("publisher<T>::queue subscribe_lk/leave_lk/advance_lk/advance_suspend_l
 ASSUMPTIONS = ["every queue method holds the queue mutex for its whole body (resumptions happen after unlock), so an "
                "interleaving of threads is a sequence of whole locked steps; real threads are not run",
                "positions and stream length stay below 2^62",
-               "a subscriber is not destroyed while an awaiter of it is parked; next() is not called on a skip-mode "
-               "subscriber of a never-published queue after its end of stream (get_value_lk indexes an empty deque)"]
+               "a subscriber is not destroyed while an awaiter of it is parked; get_value is not called on a skip-mode "
+               "subscriber that never advanced while nothing was ever published (get_value_lk indexes an empty deque)",
+               "blocking next() runs on a helper thread that is parked and released through the guarded BLOCK hook in "
+               "co_awaiter::sync(); which locked steps it executed is reported by the guarded LOG hooks (hooks/pub.patch)"]
 
 W = 1 << 64
 
@@ -62,16 +64,27 @@ class Shadow:
         return s["pos"] == self.pos
 
     def get(self, s):
-        """'v' value, 'e' eos, 'u' undefined"""
-        if s["kicked"] or s["pos"] == self.pos: return "e"
+        """'v' value, 'e' eos, 'u' undefined; the skipping modes move the reader to the value they return"""
+        if s["kicked"] or s["pos"] >= self.pos: return "e"
         rel = (self.pos - s["pos"] - 1) % W
         if s["mode"] == 0: return "e" if rel >= self.q else "v"
-        return "u" if self.q == 0 else "v"
+        if self.q == 0: return "u"
+        if s["mode"] == 1:
+            if rel >= self.q: s["pos"] = self.pos - self.q
+        else:
+            s["pos"] = self.pos - 1
+        return "v"
+
+
+def would_ub(sh, s):
+    """the coming get step would index an empty deque (protocol-breaking situations only)"""
+    return s["mode"] != 0 and not s["kicked"] and s["pos"] < sh.pos and sh.q == 0
 
 
 def next_step(sh, sid, ops):
     """append the protocol-legal next step of subscriber sid; returns False if it is parked (nothing to do)"""
     s = sh.subs[sid]
+    if s.get("blk"): return False
     if s["pc"] == "idle":
         ops.append([5, sid]); s["pc"] = "adv" if sh.ready(s) else "rf"
     elif s["pc"] == "rf":
@@ -79,12 +92,56 @@ def next_step(sh, sid, ops):
         if sh.suspend(s): s["pc"] = "parked"
         else: s["pc"] = "adv"
     elif s["pc"] == "adv":
+        if would_ub(sh, s): return False
         r = sh.get(s)
-        if r == "u": return False
         ops.append([7, sid]); s["pc"] = "idle"
         if r == "e": s["eos"] = True
     else:
         return False
+    return True
+
+
+def block_next(sh, sid, ops):
+    """bool(next()) on a helper thread: await_ready, await_ready, subscribe, (park | await_resume)"""
+    s = sh.subs[sid]
+    if s.get("blk") or s["pc"] not in ("idle", "rf"): return False
+    import copy
+    t = copy.deepcopy(s)
+    ok = sh.ready(t) or sh.ready(t)
+    parked = False
+    if not ok: parked = sh.suspend(t)
+    if not parked and would_ub(sh, t): return False
+    s.update(t)
+    ops.append([13, sid])
+    if parked:
+        s["pc"] = "parked"; s["blk"] = True
+    else:
+        if sh.get(s) == "e": s["eos"] = True
+        s["pc"] = "idle"
+    return True
+
+
+def block_fin(sh, sid, ops):
+    s = sh.subs[sid]
+    if not s.get("blk") or s["pc"] != "adv" or would_ub(sh, s): return False
+    ops.append([14, sid]); s["blk"] = False
+    if sh.get(s) == "e": s["eos"] = True
+    s["pc"] = "idle"
+    return True
+
+
+def poll(sh, sid, ops):
+    s = sh.subs[sid]
+    if s.get("blk") or s["pc"] not in ("idle", "rf"): return False
+    import copy
+    t = copy.deepcopy(s)
+    if sh.ready(t):
+        if would_ub(sh, t): return False
+        s.update(t); ops.append([15, sid])
+        if sh.get(s) == "e": s["eos"] = True
+        s["pc"] = "idle"
+    else:
+        s.update(t); ops.append([15, sid]); s["pc"] = "rf"
     return True
 
 
@@ -117,12 +174,13 @@ def apply_abstract(sh, a, ops, val):
         if s["live"]:
             s["kicked"] = True
             if s["pc"] == "parked": s["pc"] = "adv"
-    elif k == "N":
+    elif k in ("N", "W", "F", "O"):
         sid = a[1]
         if sid not in sh.subs or not sh.subs[sid]["live"]: return False
-        s = sh.subs[sid]
-        if s["eos"] and s["mode"] != 0 and s["pc"] == "idle": return False   # see ASSUMPTIONS
-        return next_step(sh, sid, ops)
+        if k == "N": return next_step(sh, sid, ops)
+        if k == "W": return block_next(sh, sid, ops)
+        if k == "F": return block_fin(sh, sid, ops)
+        return poll(sh, sid, ops)
     elif k == "S":      # subscribe recent
         sid, mode = a[1], a[2]
         if sid in sh.subs or not sh.alive: return False
@@ -140,7 +198,8 @@ def apply_abstract(sh, a, ops, val):
         ops.append([4, sid, src]); new_sub(sh, sid, sh.subs[src]["mode"], sh.subs[src]["pos"])
     elif k == "L":
         sid = a[1]
-        if sid not in sh.subs or not sh.subs[sid]["live"] or sh.subs[sid]["pc"] == "parked": return False
+        if sid not in sh.subs or not sh.subs[sid]["live"] or sh.subs[sid]["pc"] == "parked" or sh.subs[sid].get("blk"):
+            return False
         ops.append([9, sid]); sh.subs[sid]["live"] = False
     elif k == "Q":
         sid = a[1]
@@ -170,8 +229,10 @@ def gen_random(rng, name, nletters):
     for i in range(nletters):
         r = rng.random()
         s = rng.choice(sids)
-        if r < 0.34: letters.append(("N", rng.choice(sids[:nsub])))
-        elif r < 0.40: letters.append(("N", s))
+        if r < 0.26: letters.append(("N", rng.choice(sids[:nsub])))
+        elif r < 0.30: letters.append((rng.choice("WFFO"), rng.choice(sids[:nsub])))
+        elif r < 0.34: letters.append(("F", rng.choice(sids[:nsub])))
+        elif r < 0.40: letters.append((rng.choice("NNWFO"), s))
         elif r < 0.60: letters.append(("P",))
         elif r < 0.65: letters.append(("B", rng.choice([0, 1, 2, 3, 6])))
         elif r < 0.68: letters.append(("C",))
@@ -187,7 +248,8 @@ def gen_random(rng, name, nletters):
     c = from_letters(name, mn, mx, letters)
     # a small malformed / protocol-breaking stream: executed identically by model and implementation
     if rng.random() < 0.12:
-        bad = rng.choice([[6, 0], [7, 0], [5, 9], [9, 0], [13], [2, 0, 7], [3, 1, 0, -4], [4, 0, 0], [8, 77], [0], [5, -1]])
+        bad = rng.choice([[6, 0], [7, 0], [5, 9], [9, 0], [13], [2, 0, 7], [3, 1, 0, -4], [4, 0, 0], [8, 77], [0], [5, -1],
+                          [14, 0], [14, 9], [15, 9], [13, 9], [16]])
         c.ops.insert(rng.randrange(1, len(c.ops) + 1), bad)
     return c
 
@@ -260,6 +322,21 @@ def boundary_cases():
         add(1, 0, [S0, P, N0, ("Y", 1, 0), N0, N1, N1])
         add(2, 3, [S0, ("S", 1, mode), P, P, ("L", 0), ("S", 2, mode), ("N", 2), P, ("N", 2), ("N", 2), N1, N1, ("L", 1),
                    ("Y", 3, 2), ("S", 4, 0), ("N", 3), ("N", 3), ("N", 4), P, ("N", 4), ("N", 4)])
+        # blocking next() (helper thread) and polled next_ready() in each situation
+        W0, F0, O0 = ("W", 0), ("F", 0), ("O", 0)
+        add(1, 0, [S0, P, W0, W0, P, F0, W0, C, F0, W0])
+        add(1, 0, [S0, P, N0, N0, W0, P, P, F0, W0, W0, C, W0])
+        add(1, 0, [S0, W0, ("B", 2), F0, O0, O0, O0, C, O0, O0])
+        add(1, 0, [S0, W0, ("K", 0), F0, W0, O0])
+        add(1, 0, [S0, P, N0, N0, ("K", 0), W0, O0])
+        add(1, 0, [S0, ("S", 1, mode), W0, ("W", 1), P, F0, ("F", 1), W0, ("W", 1), ("D",), F0, ("F", 1)])
+        add(1, 1, [S0, O0, P, O0, P, P, O0, O0, O0, C, O0])
+        add(1, 1, [S0, P, N0, P, N0, O0, N0, N0, O0])
+        add(1, 0, [S0, W0, ("Y", 1, 0), P, F0, N1, N1, ("L", 0), N1, N1])
+        # a parked skipping subscriber woken by a batch; the window trimmed by max between ready and resume
+        add(1, 0, [S0, N0, N0, ("B", 2), N0, N0, N0, N0, N0])
+        add(1, 1, [S0, P, N0, P, N0, N0, N0, N0, N0])
+        add(1, 0, [S0, P, C, O0, O0, O0, O0])
         # two parked subscribers woken by one publish / close / ~publisher
         for w in (P, C, ("D",), ("B", 2)):
             add(1, 0, [S0, ("S", 1, mode), N0, N0, N1, N1, w, N0, N1, N0, N1, N0, N1])
@@ -267,9 +344,10 @@ def boundary_cases():
 
 
 ALPHA = [("P",), ("C",), ("N", 0), ("N", 1), ("K", 0), ("S", 1, 0), ("Y", 1, 0), ("L", 1)]
+ALPHA_B = [("P",), ("B", 2), ("C",), ("W", 0), ("F", 0), ("O", 0), ("N", 1), ("K", 0), ("S", 1, 0)]
 
 
-def exhaustive(maxlen, mode, cfgs, limit_note=None):
+def exhaustive(maxlen, mode, cfgs, alpha=None):
     """every history of length <= maxlen over ALPHA with subscriber 0 (given mode) subscribed first; sequences whose
     letters are all applicable only (inapplicable letters would just repeat shorter histories)"""
     out = []
@@ -280,7 +358,7 @@ def exhaustive(maxlen, mode, cfgs, limit_note=None):
             if depth:
                 out.append(Case("pub", "x%d" % i, [list(o) for o in ops])); i += 1
             if depth == maxlen: return
-            for a in ALPHA:
+            for a in (alpha or ALPHA):
                 if a[0] == "S": a = ("S", 1, mode)
                 import copy
                 sh2 = copy.deepcopy(sh); ops2 = list(ops); val2 = [val[0]]
@@ -302,11 +380,15 @@ def gen(seed, tier):
         cases.append(gen_churn(rng, "h%d" % i, rng.choice([10, 20, 30])))
     if tier == "quick":
         cases += exhaustive(5, 0, [(1, 0)])
+        cases += [Case(c.engine, "y" + c.name, c.ops) for c in exhaustive(4, 2, [(1, 1)], ALPHA_B)]
     else:
         cases += exhaustive(8, 0, [(1, 1)])
         cases += exhaustive(7, 0, [(1, 0), (2, 2)])
         cases += exhaustive(6, 1, [(1, 1)])
         cases += exhaustive(6, 2, [(1, 1)])
+        cases += [Case(c.engine, "y" + c.name, c.ops) for c in exhaustive(6, 0, [(1, 0)], ALPHA_B)]
+        cases += [Case(c.engine, "z" + c.name, c.ops) for c in exhaustive(5, 2, [(1, 1)], ALPHA_B)]
+        cases += [Case(c.engine, "w" + c.name, c.ops) for c in exhaustive(5, 1, [(1, 1)], ALPHA_B)]
     # malformed configurations
     cases.append(Case("pub", "cfg0", [[0, 1], [0, 5]]))
     cases.append(Case("pub", "cfg1", [[3, 2], [2, 0, 0]]))
@@ -317,28 +399,79 @@ def gen(seed, tier):
 def nontrivial(case, model_obs):
     """protocol followed by every subscriber in the model's trace + something delivered + an interleaved step or a wake"""
     pc = {}
-    delivered = False
-    woke = False
-    inter = False
+    st = {"delivered": False, "woke": False, "inter": False}
     inflight = set()
-    for op, line in zip(case.ops[1:], model_obs[1:]):
-        a = line.split()
+    lines = [l.split() for l in model_obs[1:]]
+    pos = [0]
+
+    def take():
+        if pos[0] >= len(lines): return None
+        a = lines[pos[0]]; pos[0] += 1
+        return a
+
+    def prim(k, sid):
+        """one locked step; returns (ok, result) — ok False = protocol broken"""
+        a = take()
+        if a is None: return False, None
+        if not a or a[0] == "1": return True, None
+        if a[0] != "0": return False, None
+        if len(a) > 4: st["woke"] = True
+        if k == 5:
+            if pc.get(sid) not in ("idle", "rf"): return False, None
+            pc[sid] = "adv" if a[1] == "1" else "rf"; inflight.add(sid)
+        elif k == 6:
+            if pc.get(sid) != "rf": return False, None
+            pc[sid] = "adv"
+        elif k == 7:
+            if pc.get(sid) != "adv": return False, None
+            pc[sid] = "idle"; st["delivered"] = True; inflight.discard(sid)
+        return True, a[1]
+
+    for op in case.ops[1:]:
+        k = op[0] if op else -1
+        if k in (13, 15) and len(op) == 2:
+            ok, r = prim(5, op[1])
+            if not ok: return False
+            if r is None: continue
+            if r != "1" and k == 13:
+                ok, r = prim(5, op[1])
+                if not ok: return False
+                if r != "1":
+                    ok, r = prim(6, op[1])
+                    if not ok: return False
+                    if r == "1": continue
+                    r = "1"
+            if r == "1":
+                ok, _ = prim(7, op[1])
+                if not ok: return False
+            continue
+        if k == 14 and len(op) == 2:
+            ok, _ = prim(7, op[1])
+            if not ok: return False
+            continue
+        a = take()
+        if a is None: return False
         if not a or a[0] == "1": continue
         if a[0] != "0": return False
-        k = op[0]
-        if len(a) > 4: woke = True
-        if k in (0, 1, 10, 12, 8, 2, 3, 4) and inflight: inter = True
+        if len(a) > 4: st["woke"] = True
+        if k in (0, 1, 10, 12, 8, 2, 3, 4) and inflight: st["inter"] = True
         if k in (2, 3, 4): pc[op[1]] = "idle"
-        elif k == 5:
-            if pc.get(op[1]) not in ("idle", "rf"): return False
-            pc[op[1]] = "adv" if a[1] == "1" else "rf"; inflight.add(op[1])
-        elif k == 6:
-            if pc.get(op[1]) != "rf": return False
-            pc[op[1]] = "adv"     # parked or not: the next legal step is get (after a wake)
-        elif k == 7:
-            if pc.get(op[1]) != "adv": return False
-            pc[op[1]] = "idle"; delivered = True; inflight.discard(op[1])
-    return delivered and (woke or inter)
+        elif k in (5, 6, 7):
+            pos[0] -= 1
+            ok, _ = prim(k, op[1])
+            if not ok: return False
+    return st["delivered"] and (st["woke"] or st["inter"])
+
+
+def obs_equal(case, model_obs, impl_obs):
+    """same lines; the resumed-awaiter lists are compared as multisets (helper threads of blocking calls are
+    detected after the logging awaiters)"""
+    if len(model_obs) != len(impl_obs): return False
+    for a, b in zip(model_obs, impl_obs):
+        if a == b: continue
+        x, y = a.split(), b.split()
+        if x[:4] != y[:4] or sorted(x[4:]) != sorted(y[4:]): return False
+    return True
 
 
 def signature(case, impl_obs, model_obs):
